@@ -110,7 +110,7 @@ def gen_mutation(r, text, stmts_info=None, classes=None):
     if op == "insert":
         m["bytes"] = r.choice([[0x80], [0xFF], [0xC3], [0xE2, 0x82], [0xF0, 0x9F, 0x98], [0],
                                [13], [12], [0xC3, 0xA9], [0xE2, 0x82, 0xAC], [0xC0, 0xAF],
-                               [0xED, 0xA0, 0x80], [0xFE], [9], [0x1A], [0xEF, 0xBB, 0xBF]])
+                               [0xED, 0xA0, 0x80], [0xFE], [9], [0x1A], [0xEF, 0xBB, 0xBF], [0x20], [0x20]])
     return m
 
 
